@@ -111,6 +111,15 @@ def str_method(P, s, name, args, kwargs):
         # basic facts: stripping never lengthens
         if name in ("strip", "lstrip", "rstrip"):
             P.assume(z3.Length(r) <= z3.Length(z))
+            if args and isinstance(args[0], str) and len(args[0]) == 1:
+                c = z3.StringVal(args[0])
+                if name == "lstrip":
+                    P.assume(z3.And(z3.SuffixOf(r, z), z3.Not(z3.PrefixOf(c, r)), z3.Implies(z3.Not(z3.PrefixOf(c, z)), r == z)))
+                elif name == "rstrip":
+                    P.assume(z3.And(z3.PrefixOf(r, z), z3.Not(z3.SuffixOf(c, r)), z3.Implies(z3.Not(z3.SuffixOf(c, z)), r == z)))
+                else:
+                    P.assume(z3.And(z3.Contains(z, r), z3.Not(z3.PrefixOf(c, r)), z3.Not(z3.SuffixOf(c, r)),
+                                    z3.Implies(z3.And(z3.Not(z3.PrefixOf(c, z)), z3.Not(z3.SuffixOf(c, z))), r == z)))
         if name in ("lower", "upper", "casefold"):
             P.assume(z3.Length(r) == z3.Length(z))
         return SStr(r)
@@ -270,6 +279,13 @@ def binop(P, op, a, b):
             P.assume(z3.Length(r.z) == z3.If(zint(b) > 0, zint(b), 0))
             return r
         raise _unsup("str * int")
+    if isinstance(op, ast.Mult) and isinstance(a, (list, tuple)) and isinstance(b, SInt):
+        if len(a) == 1:
+            x = a[0]
+            return SSeq(mk_int(z3.If(b.z > 0, b.z, 0)), lambda i, x=x: x, kind="tuple" if isinstance(a, tuple) else "list", tag="repeat")
+        if len(a) == 0:
+            return a
+        raise _unsup("sequence repetition of multi-element list by symbolic count")
     if isinstance(op, ast.Add) and isinstance(a, (list, tuple, SSeq)) and isinstance(b, (list, tuple, SSeq)):
         r = P.seq_concat(a, b)
         if isinstance(a, tuple) and isinstance(r, list):
@@ -316,6 +332,8 @@ def contains(P, container, item):
         j = z3.Int(P._fresh_name("in_j"))
         body = P.eq(item, container.at(j))
         return z3.Exists([j], z3.And(j >= 0, j < zint(n), zbool(body)))
+    if isinstance(container, SetOfSeq):
+        return contains(P, container.seq, item)
     if isinstance(container, SObj):
         cname = P.resolve_cls(container)
         h = None
@@ -602,6 +620,20 @@ class SymSet:
 
 # --------------------------------------------------------------------------- method calls on builtin-typed receivers
 def call_method(P, recv, name, args, kwargs):
+    from . import loops
+    if isinstance(recv, loops.SCat):
+        if name == "append":
+            recv.append(args[0])
+            return None
+        if name == "extend":
+            s = P.to_seq(args[0])
+            if isinstance(s, (list, tuple)):
+                for x in s:
+                    recv.append(x)
+            else:
+                recv.parts.append(s)
+            return None
+        raise _unsup(f"SCat.{name}")
     if isinstance(recv, (str, SStr)):
         return str_method(P, recv, name, args, kwargs)
     if isinstance(recv, list):
@@ -667,16 +699,13 @@ def call_method(P, recv, name, args, kwargs):
                     if P.branch(P.eq(recv.at(i), args[0])):
                         return i
                 raise _pyexc(P, "ValueError", "not in list")
-            # first index j with at(j) == x
-            present = contains(P, recv, args[0])
-            if not P.branch(present):
+            from . import loops
+            x = args[0]
+            filt = loops.SFilter(recv, lambda i, recv=recv, x=x: (zbool(P.eq(recv.at(i), x)), mk_int(zint(i))))
+            pres, idx = first_match(P, filt)
+            if not P.branch(pres):
                 raise _pyexc(P, "ValueError", "not in list")
-            j = P.fresh_int("index_of")
-            P.assume(z3.And(j.z >= 0, j.z < zint(n)))
-            P.assume(zbool(P.eq(recv.at(j.z), args[0])))
-            q = z3.Int(P._fresh_name("idx_q"))
-            P.assume(z3.ForAll([q], z3.Implies(z3.And(q >= 0, q < j.z), z3.Not(zbool(P.eq(recv.at(q), args[0]))))))
-            return j
+            return SInt(idx)
         if name == "copy":
             return recv
         if name == "append":
@@ -851,9 +880,12 @@ def _b_isinstance(P, a, k):
     ts = t if isinstance(t, tuple) else (t,)
     res = []
     for c in ts:
+        if isinstance(c, Builtin) and c.name in TYPE_NAMES:
+            res.append(_isinst1(P, x, c.name))
+            continue
         if not isinstance(c, ClassRef):
             raise _unsup(f"isinstance against {c!r}")
-        res.append(_isinst1(P, x, c.name))
+        res.append(_isinst1(P, x, c.name.split(".")[-1] if c.name.startswith("typing.") else c.name))
     if all(isinstance(r, bool) for r in res):
         return any(res)
     return mk_bool(z3.Or(*[zbool(r) for r in res]))
@@ -1111,6 +1143,9 @@ def _b_range(P, a, k):
 
 
 def _b_iter(P, a, k):
+    from . import loops
+    if isinstance(a[0], (loops.SFilter, Iter)):
+        return a[0]
     return Iter(P.to_seq(a[0]))
 
 
@@ -1119,8 +1154,38 @@ class Iter:
         self.seq, self.pos = seq, 0
 
 
+def first_match(P, filt):
+    """First index of a filtered symbolic sequence satisfying the predicate -> (present Bool, idx Int).
+    Memoised per path on the predicate text at a canonical index, so repeated look-ups agree."""
+    seq = filt.seq
+    q = z3.Int("q!first")
+    keep_q, _ = filt.pred_elt(q)
+    keep_q = zbool(keep_q)
+    key = ("first", id(seq), keep_q.sexpr())
+    memo = P.ghost.setdefault("finders", {})
+    if key in memo:
+        return memo[key]
+    n = zint(seq.len)
+    pres = z3.Bool(P._fresh_name("found"))
+    idx = z3.Int(P._fresh_name("found_at"))
+    keep_idx = z3.substitute(keep_q, (q, idx))
+    P.assume(z3.Implies(pres, z3.And(idx >= 0, idx < n, keep_idx,
+                                     z3.ForAll([q], z3.Implies(z3.And(q >= 0, q < idx), z3.Not(keep_q))))))
+    P.assume(z3.Implies(z3.Not(pres), z3.ForAll([q], z3.Implies(z3.And(q >= 0, q < n), z3.Not(keep_q)))))
+    memo[key] = (pres, idx)
+    return memo[key]
+
+
 def _b_next(P, a, k):
+    from . import loops
     it = a[0]
+    if isinstance(it, loops.SFilter):
+        pres, idx = first_match(P, it)
+        if P.branch(pres):
+            return it.pred_elt(idx)[1]
+        if len(a) > 1:
+            return a[1]
+        raise _pyexc(P, "StopIteration")
     if not isinstance(it, Iter):
         raise _unsup("next() of non-iterator")
     n = P.seq_len(it.seq)
